@@ -242,6 +242,35 @@ def gen_sequence(rng, max_tokens=30, rich=True):
     return bytes(src), expected
 
 
+def directed_sequences():
+    """every kind of token directly followed by "-1", "- 1" and " -1": a minus sign belongs to the number exactly when
+    no operand can end before it (rule stated here independently of the code's table: identifiers, literals, ")" and "]")"""
+    reps = [(b"x", 28), (b"7", 18), (b'"s"', 19), (b"true", 17), (b"nil", 20), (b")", 3), (b"]", 5), (b"}", 7), (b"(", 2), (b"[", 4), (b"{", 6),
+            (b",", 22), (b"=", 8), (b":=", 14), (b"+=", 9), (b"==", 12), (b"&&", 13), (b"+", 11), (b"*", 11), (b"!", 10), (b":", 23), (b"return", 32),
+            (b"case", 36), (b"print", 43), (b"int", 21), (b"++", 15), (b"@", 51), (b"|", 52), (b";", 24), (b".", 25)]
+    vals = {19: b"s"}
+    out = []
+    for text, ty in reps:
+        val = vals.get(ty, text)
+        for form in (b"%s-1", b"%s -1", b"%s - 1", b"%s-1.5"):
+            src = form % text
+            exp = [(ty, val, 1, 1)]
+            rest = src[len(text):]
+            col = 1 + len(text)
+            blanks = len(rest) - len(rest.lstrip(b" "))
+            col += blanks
+            rest = rest.lstrip(b" ")
+            num = rest[1:].lstrip(b" ")
+            if ty in ENDS_OPERAND or rest[1:2] == b" ":
+                exp.append((11, b"-", 1, col))
+                exp.append((18, num, 1, col + 1 + (len(rest) - 1 - len(num))))
+            else:
+                exp.append((18, b"-" + num, 1, col))
+            exp.append((53, b"", 1, 1 + len(src)))
+            out.append((src, exp))
+    return out
+
+
 INTERESTING = b" \t\n\r\"`\\/*-+=!<>&|:;.,(){}[]@%019azAZ_xu\xc3\xa9\xff\x00"
 
 
